@@ -562,9 +562,9 @@ INSERT INTO queue_items (
 		env.Route,
 		env.Target,
 		string(env.State),
-		env.ReceivedAt.UnixNano(),
+		saturatingUnixNano(env.ReceivedAt),
 		env.Attempt,
-		env.NextRunAt.UnixNano(),
+		saturatingUnixNano(env.NextRunAt),
 		env.Payload,
 		headersJSON,
 		traceJSON,
@@ -652,9 +652,9 @@ INSERT INTO queue_items (
 		env.Route,
 		env.Target,
 		string(env.State),
-		env.ReceivedAt.UnixNano(),
+		saturatingUnixNano(env.ReceivedAt),
 		env.Attempt,
-		env.NextRunAt.UnixNano(),
+		saturatingUnixNano(env.NextRunAt),
 		env.Payload,
 		headersJSON,
 		traceJSON,
@@ -840,9 +840,9 @@ INSERT INTO queue_items (
 			p.env.Route,
 			p.env.Target,
 			string(p.env.State),
-			p.env.ReceivedAt.UnixNano(),
+			saturatingUnixNano(p.env.ReceivedAt),
 			p.env.Attempt,
-			p.env.NextRunAt.UnixNano(),
+			saturatingUnixNano(p.env.NextRunAt),
 			p.env.Payload,
 			p.headersJSON,
 			p.traceJSON,
@@ -1421,6 +1421,20 @@ WHERE id IN (`, []any{string(StateDelivered), now.UnixNano()}, itemIDs)
 DELETE FROM queue_items
 WHERE id IN (`, nil, itemIDs)
 	})
+}
+
+// saturatingUnixNano returns t in Unix nanoseconds, saturating at the smallest
+// and largest representable instants (years 1677 and 2262) instead of wrapping:
+// a publish-supplied next_run_at beyond that range must not become an instant
+// in the past, nor an ancient received_at one in the future.
+func saturatingUnixNano(t time.Time) int64 {
+	if t.Before(time.Unix(0, math.MinInt64)) {
+		return math.MinInt64
+	}
+	if t.After(time.Unix(0, math.MaxInt64)) {
+		return math.MaxInt64
+	}
+	return t.UnixNano()
 }
 
 // saturatingUnixNanoAfter returns now+delay in Unix nanoseconds, saturating at
